@@ -22,6 +22,7 @@
 package main
 
 import (
+	"bufio"
 	"fmt"
 	"os"
 	"reflect"
@@ -335,8 +336,73 @@ func msgTypeOf(b []byte) (uint, bool) {
 	return t, true
 }
 
+// ---- optional engine traces (C16_ENGINE_TRACES): every run is also recorded at the engine's
+// verif hooks and appended to one ndjson file in the format spec/net/EngineTrace.tla reads.
+
+var recorders sync.Map // *protocol.Protocol -> *trace.Recorder
+
+func dispatch(p *protocol.Protocol, e protocol.VerifEvent) {
+	if r, ok := recorders.Load(p); ok {
+		r.(*trace.Recorder).Hook(p, e)
+	}
+}
+
+type traceSink struct {
+	mu     sync.Mutex
+	f      *os.File
+	w      *bufio.Writer
+	traces int
+	events int
+}
+
+func openSink(rep *vh.Reporter) *traceSink {
+	path := os.Getenv("C16_ENGINE_TRACES")
+	if path == "" {
+		return nil
+	}
+	f, err := os.Create(path)
+	if err != nil {
+		rep.Dead("C16_ENGINE_TRACES: %v", err)
+	}
+	protocol.VerifTracer = dispatch
+	return &traceSink{f: f, w: bufio.NewWriterSize(f, 1<<20)}
+}
+
+func (s *traceSink) close() {
+	s.mu.Lock()
+	defer s.mu.Unlock()
+	s.w.Flush()
+	s.f.Close()
+}
+
+// atRest adds the End line once the endpoint has come to rest: after a protocol error when its
+// four loops have logged their exit, otherwise when every handler call has returned and released
+// its bytes and nothing has been logged for a while.
+func atRest(rec *trace.Recorder, ep string, failed bool) {
+	if failed {
+		deadline := time.Now().Add(10 * time.Second)
+		for time.Now().Before(deadline) && rec.Count(ep, "Exit") < 4 {
+			time.Sleep(2 * time.Millisecond)
+		}
+	} else {
+		deadline := time.Now().Add(5 * time.Second)
+		for time.Now().Before(deadline) &&
+			rec.Count(ep, "Handle") != rec.Count(ep, "Release")+rec.Count(ep, "RecvErr") {
+			time.Sleep(time.Millisecond)
+		}
+		n, since := len(rec.Lines()), time.Now()
+		for time.Now().Before(deadline) && time.Since(since) < 25*time.Millisecond {
+			time.Sleep(3 * time.Millisecond)
+			if m := len(rec.Lines()); m != n {
+				n, since = m, time.Now()
+			}
+		}
+	}
+	rec.Add(trace.Line{Ep: ep, Ev: "End", S1: "any"})
+}
+
 // runCase drives one row through one real endpoint.
-func runCase(im *impl, role string, row *caseRow, sides map[string]string, seed int64, w waits) runResult {
+func runCase(im *impl, role string, row *caseRow, sides map[string]string, seed int64, w waits, sink *traceSink, id string) (res runResult) {
 	base := im.client
 	prole, rawRole := protocol.ProtocolRoleClient, muxer.ProtocolRoleResponder
 	if role == "server" {
@@ -365,6 +431,12 @@ func runCase(im *impl, role string, row *caseRow, sides map[string]string, seed 
 		return nil
 	}
 	real := protocol.New(cfg)
+	sawErr := false // the endpoint reported a protocol error
+	var rec *trace.Recorder
+	if sink != nil {
+		rec = trace.NewRecorder(cfg.Name)
+		recorders.Store(real, rec)
+	}
 	sendCh, recvCh, _ := mb.RegisterProtocol(cfg.ProtocolId, rawRole)
 	if sendCh == nil || recvCh == nil {
 		return runResult{dead: "raw peer could not register with its muxer"}
@@ -378,12 +450,24 @@ func runCase(im *impl, role string, row *caseRow, sides map[string]string, seed 
 	ma.Start()
 	mb.Start()
 	defer func() {
+		if rec != nil {
+			atRest(rec, role, sawErr)
+		}
 		real.Stop()
 		ma.Stop()
 		mb.Stop()
 		select {
 		case <-real.DoneChan():
 		case <-time.After(5 * time.Second):
+		}
+		if rec != nil {
+			recorders.Delete(real)
+			sm := trace.DumpStateMap(cfg.StateMap, cfg.InitialState)
+			sink.mu.Lock()
+			rec.AppendTo(sink.w, row.Proto+"|"+id, sm, sm, false)
+			sink.traces++
+			sink.events += len(rec.Lines())
+			sink.mu.Unlock()
 		}
 	}()
 
@@ -439,6 +523,7 @@ func runCase(im *impl, role string, row *caseRow, sides map[string]string, seed 
 				return runResult{dead: fmt.Sprintf("%s: endpoint wrote message type %d (%v) while step %q (type %d, own=%v) was in flight", row.Proto, t, ok, label, msg.Type(), own)}
 			}
 		case e := <-errCh:
+			sawErr = true
 			v = verdict{"reject", e.Error()}
 		case <-timer.C:
 		}
@@ -497,6 +582,8 @@ func replay(rep *vh.Reporter, casesPath, labelsPath string) {
 	first := waits{decide: envMs("C16_DECIDE_MS", 6000), grace: envMs("C16_GRACE_MS", 80)}
 	final := waits{decide: envMs("C16_FINAL_MS", 25000), grace: envMs("C16_GRACE_MS", 80)}
 
+	sink := openSink(rep)
+	id := func(i int, pass string) string { return fmt.Sprintf("c16%s%d%s", pass, i, jobs[i].role[:1]) }
 	results := make([]runResult, len(jobs))
 	var wg sync.WaitGroup
 	sem := make(chan struct{}, 48)
@@ -508,7 +595,7 @@ func replay(rep *vh.Reporter, casesPath, labelsPath string) {
 			defer func() { <-sem }()
 			j := jobs[i]
 			rep.Guard("replay:"+j.key(), j.row, func() {
-				results[i] = runCase(impls[j.row.Proto], j.role, j.row, sides, seed*1000003+int64(i), first)
+				results[i] = runCase(impls[j.row.Proto], j.role, j.row, sides, seed*1000003+int64(i), first, sink, id(i, "r"))
 			})
 		}(i)
 	}
@@ -530,7 +617,7 @@ func replay(rep *vh.Reporter, casesPath, labelsPath string) {
 		retried++
 		j := jobs[i]
 		rep.Guard("replay:"+j.key(), j.row, func() {
-			*r = runCase(impls[j.row.Proto], j.role, j.row, sides, seed*1000003+int64(i), final)
+			*r = runCase(impls[j.row.Proto], j.role, j.row, sides, seed*1000003+int64(i), final, sink, id(i, "again"))
 		})
 		if r.step >= 0 && r.verdict.got == "held" {
 			confirmed++
@@ -539,6 +626,11 @@ func replay(rep *vh.Reporter, casesPath, labelsPath string) {
 		}
 	}
 
+	if sink != nil {
+		sink.close()
+		rep.Extra["c16_engine_traces"] = sink.traces
+		rep.Extra["c16_engine_trace_events"] = sink.events
+	}
 	perProto := map[string]int{}
 	expects := map[string]int{}
 	for i, j := range jobs {
